@@ -109,3 +109,16 @@ extern "C" void h_load()
     verif_note("dispatch", (uint64_t)verif_dispatched());
     verif_assert(verif_dispatched() == (m2 == 1 ? 2 : 1), "P5: exactly the files of the detected layout are opened");
 }
+
+// database_exists(): the observing twin of load_database (C16 runs this and h_load with the "no write statement" oracle)
+extern "C" void h_exists()
+{
+    int got = -2;
+    try { got = database_exists("dir") ? 1 : 0; }
+    catch (const std::exception&) { got = -3; }
+    verif_reach("exists-called");
+    int d = verif_fs_exists("dir"), m = verif_fs_exists("dir/m.db"), m2 = verif_fs_exists("dir/Database2/m.db");
+    bool one_layout = d == 1 && ((m == 1) != (m2 == 1));
+    if (!one_layout) verif_assert(got == 0, "E0: no / ambiguous layout -> database_exists() is false");
+    else verif_assert(got == 1 || got == -3, "E1: exactly one layout -> database_exists() is true (or loading fails for another reason)");
+}
